@@ -61,18 +61,21 @@ var (
 
 // vh15Peer is one remote party with its own connection to V.
 type vh15Peer struct {
-	Name string
-	DID  did.DID
-	Auth bool
+	Name   string
+	DID    did.DID
+	Auth   bool
+	PeerID string // transport peer ID the remote side asserts ("" = one of its own)
 }
 
 // L: on T1's list. M: on T3's list (two-victims family). A: authenticated network member on no victim list (it makes
-// the recombined transactions). U: an UNAUTHENTICATED connection that claims L's node DID.
+// the recombined transactions). U: an UNAUTHENTICATED connection that claims L's node DID. I (two-victims family): the
+// unlisted member on a second connection, authenticated under its own DID, asserting L's transport PEER ID (peer IDs are
+// chosen by the remote side).
 func vh15Peers(family string) []vh15Peer {
 	if family == "two-victims" {
-		return []vh15Peer{{"L", vh15L, true}, {"M", vh15M, true}, {"A", vh15A, true}, {"U", vh15L, false}}
+		return []vh15Peer{{"L", vh15L, true, ""}, {"M", vh15M, true, ""}, {"A", vh15A, true, ""}, {"U", vh15L, false, ""}, {"I", vh15A, true, "peer-L"}}
 	}
-	return []vh15Peer{{"L", vh15L, true}, {"A", vh15A, true}, {"U", vh15L, false}}
+	return []vh15Peer{{"L", vh15L, true, ""}, {"A", vh15A, true, ""}, {"U", vh15L, false, ""}}
 }
 
 // vh15Dag is one DAG configuration.
@@ -128,6 +131,7 @@ type vh15Conn struct {
 	mu     sync.Mutex
 	queued []*vh15Queued
 	cur    *int32 // index of the event being executed
+	own    int32  // schedules part: index of the query this peer's handler thread is executing (-1 = use cur)
 }
 
 func (c *vh15Conn) Send(_ grpc.Protocol, envelope interface{}, _ bool) error {
@@ -137,8 +141,12 @@ func (c *vh15Conn) Send(_ grpc.Protocol, envelope interface{}, _ bool) error {
 	if err != nil {
 		return err
 	}
+	cause := int(atomic.LoadInt32(c.cur))
+	if own := atomic.LoadInt32(&c.own); own >= 0 {
+		cause = int(own)
+	}
 	c.mu.Lock()
-	c.queued = append(c.queued, &vh15Queued{env: env, atSend: raw, cause: int(atomic.LoadInt32(c.cur)), judged: map[string]bool{}})
+	c.queued = append(c.queued, &vh15Queued{env: env, atSend: raw, cause: cause, judged: map[string]bool{}})
 	c.mu.Unlock()
 	return nil
 }
@@ -328,8 +336,12 @@ func (in *vh15Inst) close() {
 func vh15NewConns(peers []vh15Peer, cur *int32) *vh15ConnList {
 	l := &vh15ConnList{}
 	for i, p := range peers {
-		tp := transport.Peer{ID: transport.PeerID(fmt.Sprintf("peer-%s", p.Name)), Address: fmt.Sprintf("%s.test:%d", strings.ToLower(p.Name), 5550+i), NodeDID: p.DID, Authenticated: p.Auth}
-		l.conns = append(l.conns, &vh15Conn{StubConnection: grpc.NewStubConnection(tp), peer: p, cur: cur})
+		id := p.PeerID
+		if id == "" {
+			id = fmt.Sprintf("peer-%s", p.Name)
+		}
+		tp := transport.Peer{ID: transport.PeerID(id), Address: fmt.Sprintf("%s.test:%d", strings.ToLower(p.Name), 5550+i), NodeDID: p.DID, Authenticated: p.Auth}
+		l.conns = append(l.conns, &vh15Conn{StubConnection: grpc.NewStubConnection(tp), peer: p, cur: cur, own: -1})
 	}
 	return l
 }
@@ -405,17 +417,6 @@ type vh15Run struct {
 	changed int64
 }
 
-func (x *vh15Run) entitled(w *vh15World, c *vh15Conn, victim string) bool {
-	return c.peer.Auth && vc15Has(w.lists[victim], c.peer.Name) && c.peer.DID.Equals(vh15PeerDID(w, victim))
-}
-
-func vh15PeerDID(w *vh15World, victim string) did.DID {
-	if victim == "T3" {
-		return vh15M
-	}
-	return vh15L
-}
-
 func vh15TxClass(tx string) string {
 	switch tx {
 	case "T1", "T3":
@@ -430,7 +431,7 @@ func vh15TxClass(tx string) string {
 
 // judge serialises every envelope queued for every peer NOW and applies the disclosure oracle to the bytes as of the
 // Send call and to the bytes as of now.
-func (x *vh15Run) judge(w *vh15World, list *vh15ConnList, hist []vh15Event, scope string) {
+func (x *vh15Run) judge(w *vh15World, list *vh15ConnList, hist []vh15Event, scope string, replayCase ...func() any) {
 	for _, c := range list.conns {
 		for _, q := range c.snapshot() {
 			now, err := proto.Marshal(q.env)
@@ -484,7 +485,12 @@ func (x *vh15Run) judge(w *vh15World, list *vh15ConnList, hist []vh15Event, scop
 					}
 					x.r.Violation(sig, fmt.Sprintf("the payload of private transaction %s (participants %v and the local node) is in a %s envelope queued for peer %s (authenticated=%v, node DID %s) in answer to %s; "+
 						"bytes %s; DAG: %s; history: %s", victim, w.lists[victim], kind, c.peer.Name, c.peer.Auth, c.peer.DID, cause, phase, w.cfg, strings.Join(hs, " ; ")),
-						vh15Replay{Dag: w.cfg, History: hist})
+						func() any {
+							if len(replayCase) > 0 {
+								return replayCase[0]()
+							}
+							return vh15Replay{Dag: w.cfg, History: hist}
+						}())
 				}
 			}
 			if now != nil && !bytes.Equal(now, q.atSend) {
@@ -767,21 +773,11 @@ func vh15Plans(thorough bool) []vh15Plan {
 		depth1 = 4
 	}
 	plans = append(plans, vh15Plan{name: "recombined/queries", dags: d1, events: core, depth: depth1, intro: true})
-	// (2) recombined headers, every event kind, shallower
+	// (2) recombined headers that share material with the victim, every event kind, shallower
 	var d2 []vh15Dag
-	offers := []string{"with-payload"}
-	holds := []bool{true}
-	if thorough {
-		offers = []string{"with-payload", "without-payload"}
-		holds = []bool{true, false}
-	}
 	for _, o := range orders {
 		for _, h := range vh15Headers(2, true) {
-			for _, of := range offers {
-				for _, ho := range holds {
-					d2 = append(d2, vh15Dag{Family: "recombined", T1Order: o, Att: h, Offer: of, Holds: ho})
-				}
-			}
+			d2 = append(d2, vh15Dag{Family: "recombined", T1Order: o, Att: h, Offer: "with-payload", Holds: true})
 		}
 	}
 	depth2 := 2
@@ -789,17 +785,32 @@ func vh15Plans(thorough bool) []vh15Plan {
 		depth2 = 3
 	}
 	plans = append(plans, vh15Plan{name: "recombined/all-events", dags: d2, events: wide, depth: depth2, intro: true})
+	if thorough {
+		// (2b) the same with the transaction offered WITHOUT its payload (V's retry job decrypts its header) and / or V not yet holding the victim payload
+		var d2b []vh15Dag
+		for _, o := range orders {
+			for _, h := range vh15Headers(2, true) {
+				for _, oh := range []struct {
+					offer string
+					holds bool
+				}{{"without-payload", true}, {"with-payload", false}, {"without-payload", false}} {
+					d2b = append(d2b, vh15Dag{Family: "recombined", T1Order: o, Att: h, Offer: oh.offer, Holds: oh.holds})
+				}
+			}
+		}
+		plans = append(plans, vh15Plan{name: "recombined/all-events/offer-and-holding-variants", dags: d2b, events: wide, depth: 2, intro: true})
+	}
 	// (3) two victim transactions with disjoint lists
 	var d3 []vh15Dag
 	for _, o := range orders {
 		d3 = append(d3, vh15Dag{Family: "two-victims", T1Order: o, Holds: true})
 	}
-	depth3 := 3
+	depth3, depth3w := 3, 2
 	if thorough {
-		depth3 = 4
+		depth3, depth3w = 5, 3
 	}
 	plans = append(plans, vh15Plan{name: "two-victims/queries", dags: d3, events: core, depth: depth3})
-	plans = append(plans, vh15Plan{name: "two-victims/all-events", dags: d3, events: wide, depth: 2})
+	plans = append(plans, vh15Plan{name: "two-victims/all-events", dags: d3, events: wide, depth: depth3w})
 	if thorough {
 		// (4) ALL PAIRS of recombined headers (length <= 2) as two transactions of the unlisted member
 		var d4 []vh15Dag
@@ -887,7 +898,7 @@ func TestVerifC15Histories(t *testing.T) {
 		return
 	}
 	r.Rule("query histories on ONE persistent node V (real v2.protocol, dag.State on bbolt, key store) with one connection per peer {L: authenticated, on the victim's list; " +
-		"M: authenticated, on the second victim's list; A: authenticated network member on no list; U: unauthenticated connection claiming L's node DID}. DAG alphabet: victim transaction T1 " +
+		"M: authenticated, on the second victim's list; A: authenticated network member on no list; U: unauthenticated connection claiming L's node DID; I: A on a second connection asserting L's transport peer ID}. DAG alphabet: victim transaction T1 " +
 		"(payload = canary, list {L,V}, header entries in both orders) plus transactions the unlisted member A publishes through the real gossip -> list query -> list path whose participant-list HEADER is " +
 		"every sequence (length 1..2, thorough 1..3; thorough also all pairs of two such transactions) over {T1's first entry, T1's second entry, own entry encrypted for V naming {A,V}, own entry V cannot decrypt} " +
 		"— whole list, first entry only, subsets, reordered, duplicated, each with and without own entries; or a second victim T3 (other canary, list {M,V}). Events: payload query / list query / gossip / " +
